@@ -52,6 +52,9 @@ func c17New(withHeader bool) *c17Env {
 	e.api = NewSimpleAPIWithSimpleHTTP("http://h", s)
 	if withHeader {
 		e.api.DefaultHeader = http.Header{"X-Default": []string{"d1"}}
+		if vfChoose("default-header-has-content-type", 2) == 1 {
+			e.api.DefaultHeader.Set("Content-Type", "text/plain")
+		}
 	}
 	e.api.ResponseDeserializer = func(body []byte, target interface{}) (interface{}, error) {
 		e.decBody = append(e.decBody, string(body))
@@ -141,7 +144,19 @@ func c17CheckRequestP(e *c17Env, ix int, method, wantRel, wantBody, wantCT strin
 		seen.header.Add("X-New", "n")
 		vfAssert("request-header-mutation-does-not-reach-default", vfAnd(e.api.DefaultHeader.Get("X-Default") == "d1", e.api.DefaultHeader.Get("X-New") == ""))
 	}
-	vfAssert("content-type", seen.header.Get("Content-Type") == wantCT)
+	cts := seen.header.Values("Content-Type")
+	hasCT := wantCT == "" // nothing declared (bodiless request): whatever DefaultHeader says stands
+	for _, ct := range cts {
+		if ct == wantCT {
+			hasCT = true
+		}
+	}
+	vfAssert("content-type", hasCT) // "DefaultHeader plus the declared Content-Type": declared one among the values
+	if e.api.DefaultHeader == nil || e.api.DefaultHeader.Get("Content-Type") == "" {
+		vfAssert("content-type", seen.header.Get("Content-Type") == wantCT)
+	} else {
+		vfAssert("default-header-content", cts[0] == "text/plain") // DefaultHeader's own entry is carried too
+	}
 	got := ""
 	if seen.body != nil {
 		b, _ := io.ReadAll(seen.body)
